@@ -715,6 +715,10 @@ static Boolean LayoutDoubleWord(tStrComp const* pExpr, struct sLayoutCtx* pCtx) 
 
         TranslateString(erg.Contents.str.p_str, erg.Contents.str.len);
 
+        if (!pCtx->Put32I) {
+            WrStrErrorPos(ErrNum_FloatButString, pExpr);
+            break;
+        }
         for (z = 0; z < erg.Contents.str.len; z++) {
             if (!pCtx->Put32I(erg.Contents.str.p_str[z], pCtx)) {
                 LEAVE;
@@ -860,6 +864,10 @@ static Boolean LayoutQuadWord(tStrComp const* pExpr, struct sLayoutCtx* pCtx) {
 
         TranslateString(erg.Contents.str.p_str, erg.Contents.str.len);
 
+        if (!pCtx->Put64I) {
+            WrStrErrorPos(ErrNum_FloatButString, pExpr);
+            break;
+        }
         for (z = 0; z < erg.Contents.str.len; z++) {
             if (!pCtx->Put64I(erg.Contents.str.p_str[z], pCtx)) {
                 LEAVE;
